@@ -51,6 +51,31 @@ def handle : Handler := fun op inp impl =>
   | "oscmd" => ConfModel.Driver.OSCmd.judgeServer inp impl
   | "inproc" => ConfModel.Driver.C11InProc.handle inp impl
   | "wire" => ConfModel.Driver.C11Wire.handle inp impl
+  | "refhang" =>
+    -- the real in-process reference server, requests left hanging at the end of the batch: the
+    -- fault script is "nothing goes wrong for the cases": every case answered with the expected response
+    if nat (field impl "frozenMs") > 0 then { agree := true, holds := true, nontrivial := false, cls := "refhang-set-aside" } else
+    let n := nat (field inp "n")
+    let s : Script := {
+      cases := List.replicate n (.answer .pass false), isRef := bool (field inp "isRef"), useTLS := false,
+      startErr := false, writeErr := false, closeErr := false, resp := .ok, dies := none, names := [], stderr := [] }
+    let out := runBatch s
+    let mClasses := (List.range n).filterMap fun i => (out.log.reverse.find? (·.1 == i)).map fun e => className e.2
+    let iOutcomes := pairs (field impl "outcomes")
+    let hang := bool (field impl "hang")
+    let el := nat (field impl "elapsedMs")
+    -- bounded: the server's graceful shutdown (5 s) and localProcess's grace (5 s), twice (abort is
+    -- called on the way out as well), with a generous margin
+    let bounded := !hang && el ≤ 35000
+    let perCase := iOutcomes.length == n && iOutcomes.all (fun p => match parseClass p.2 with | some c => Spec.expectedOK s 0 c | none => false)
+    let holds := bounded && perCase && bool (field impl "serverReturned")
+    { agree := holds && iOutcomes.map (·.2) == mClasses && str (field impl "setupErr") == "", holds := holds, nontrivial := str (field inp "hang") != "none",
+      cls := "refhang:" ++ str (field inp "hang"),
+      why := if holds then "" else
+        if hang then s!"refhang: the batch against the in-process reference server had not ended after {nat (field inp "dogS")} s although the client had reported a result for every case ({nat (field impl "hanging")} request(s) left hanging in the server: {str (field inp "hang")}); outcomes so far {iOutcomes}; server function returned: {bool (field impl "serverReturned")}"
+        else if !bounded then s!"refhang: the batch took {el} ms"
+        else if !perCase then s!"refhang: outcomes {iOutcomes} — every case was answered with the expected response"
+        else "refhang: the server function had not returned when the batch ended" }
   | "batch" =>
     let names := strList (field inp "names")
     let n := names.length
